@@ -230,6 +230,11 @@ class CounterToken(Token, FileSystemEventHandler):
         self.watcher = ipcom().fswatch(self, self.path, recursive=True)
         logger.info("Watching %s", self.watchedpath)
 
+        # Token files of finished jobs may have been removed (TokenFile.watch)
+        # before the watcher was ready: no event will tell
+        with self.lock, self.ipc_lock:
+            self._update()
+
     def _update(self):
         """Update the state by reading all the information from disk
 
